@@ -231,6 +231,25 @@ def body_cores(case):
             r = t.ortho_right(max_rank=cap)
         require(r is t, 'returns_self', 'sweep did not return self')
     require_consistent(t, 'consistent')
+    if isinstance(cap, list):
+        # the same list of caps once more on a fresh copy: a call that writes into its max_rank argument shows up here
+        if entry == 'ctor':
+            t2 = TT([c.copy() for c in cores], max_rank=cap)
+        else:
+            t2 = TT([c.copy() for c in cores])
+            if entry == 'ortho':
+                t2.ortho(max_rank=cap)
+            elif entry == 'left_then_right':
+                t2.ortho_left()
+                t2.ortho_right(max_rank=cap)
+            elif entry == 'right_then_left':
+                t2.ortho_right()
+                t2.ortho_left(max_rank=cap)
+            elif entry == 'left_only':
+                t2.ortho_left(max_rank=cap)
+            else:
+                t2.ortho_right(max_rank=cap)
+        require(list(t2.ranks) == list(t.ranks), 'repeatable', 'second call with the same max_rank list: ranks %s, first call %s' % (t2.ranks, t.ranks))
     for k in range(1, d):
         require(t.ranks[k] <= caps[k], 'rank_cap', 'rank %d is %d > cap %s (%s)' % (k, t.ranks[k], caps[k], entry))
         require(t.ranks[k] <= spec['ranks'][k], 'rank_cap', 'rank %d grew from %d to %d' % (k, spec['ranks'][k], t.ranks[k]))
